@@ -12,7 +12,7 @@ LEVEL_TEXT = ('Partial. Coq theorems over R about the energy kernels re-translat
               'F^T F / det F / F:F under rotations; objectivity and isotropy of both neo-Hookean variants, Gent, linear-elastic with '
               'Green-Lagrange and logarithmic strain, J2 (logarithmic kinematics, elastic regime; isotropy for the virgin state), the '
               'complete single-branch viscoelastic incremental energy, the equilibrium part of the three-branch model, the phase-field '
-              'threshold model; zero rest energy for every model and option except J2 "seth hill" (refuted: 18*kappa, finding F4); zero '
+              'threshold model, J2 "seth hill" (after the repair of finding F4, /repo 60fe5f7); zero rest energy for every model and option; zero '
               'rest stress (Coquelicot derivative along every straight path) for the closed-form models. log_sqrt_symm / pow_symm enter '
               'as hypotheses (equivariance, value at I). NOT proved: complete three-branch energy, rest stress through the spectral '
               'functions, Kirchhoff-stress symmetry as a derivative statement -- these are only tested on the implementation (L2).')
@@ -31,7 +31,7 @@ TRUSTED = ['Coq 8.16.1 kernel + vm_compute (no native_compute)',
            'theorems are over exact reals; binary64 rounding is covered only by the correspondence and the conclusion checks']
 ASSUMPTIONS = ['exact real arithmetic in theorems',
                'LogSqrtSpec: TensorMath.log_sqrt_symm is equivariant under rotations on symmetric arguments and vanishes at the identity',
-               'PowSpec (only for the refutation): pow_symm is equivariant, pow(I,m)=I, pow(0,m)=0 for m>0',
+               'PowSpec (J2 seth hill): pow_symm is equivariant under rotations on symmetric arguments, pow(I,m)=I (and pow(0,m)=0 for the F4 regression witness)',
                'rotation Q is stated as Q^T Q = Q Q^T = I, det Q = 1 (the two orthogonality equations are equivalent for square matrices)',
                'J2 and viscoelastic models: elastic regime / virgin internal state as stated in each theorem; dt > 0, tau > 0; det F > 0 where ln/pow of J occurs',
                'jax.grad of the primitives used is the derivative (conclusion checks on stresses)']
@@ -189,13 +189,22 @@ def models():
             out['PhaseFieldThreshold/' + kin] = dict(
                 f=(lambda H, m=m, st=st: m.compute_energy_density(H, 0.0, np.zeros(3), st, DT)),
                 fpf=(lambda H, ph, g, m=m, st=st: m.compute_energy_density(H, ph, g, st, DT)), finite=(kin == 'large deformations'))
+    import jax
+    for md in out.values():
+        md['jf'] = jax.jit(md['f'])
+        md['jg'] = jax.jit(jax.grad(md['f']))
+        if 'fpf' in md:
+            md['jfpf'] = jax.jit(md['fpf'])
+        if 'model' in md:
+            md['jm'] = jax.jit(md['model'].compute_energy_density)
     _MODELS = out
     return out
 
 
 def tol_energy(H, e):
+    # det/ln of J ~ 1 carry an ABSOLUTE rounding error of a few ulp(1), i.e. modulus * 1e-15 in the energy, whatever the strain
     s = fro(H)
-    return 2e-12 * (4 * E_MOD * s * (1 + s) + abs(e)) + 1e-300
+    return 1.6e-14 * 4 * E_MOD * (1 + s) ** 2 + 2e-12 * abs(e)
 
 
 # ----------------------------------------------------------------------------- L2: conclusions on the implementation
@@ -210,8 +219,8 @@ def check_rest(ctx, names=None):
     for name, md in models().items():
         if names and name not in names:
             continue
-        e = float(md['f'](H0))
-        g = onp.array(jax.grad(md['f'])(H0))
+        e = float(md['jf'](H0))
+        g = onp.array(md['jg'](H0))
         ctx.count('rest_checks', 2)
         if not abs(e) <= 1e-13 * E_MOD:
             fails.append(dict(kind='conclusion', what='%s: undeformed virgin state has energy %r (must be 0)' % (name, e),
@@ -250,11 +259,10 @@ def check_invariance(ctx, cases, batch):
             e0, eL, eR = onp.array(vf(Hs)), onp.array(vf(HL)), onp.array(vf(HR))
             P = onp.array(jax.jit(jax.vmap(jax.grad(f)))(Hs))
         else:
-            e0 = onp.array([float(f(h)) for h in Hs])
-            eL = onp.array([float(f(h)) for h in HL])
-            eR = onp.array([float(f(h)) for h in HR])
-            gf = jax.grad(f)
-            P = onp.array([onp.array(gf(h)) for h in Hs])
+            e0 = onp.array([float(md['jf'](h)) for h in Hs])      # one compiled call per evaluation
+            eL = onp.array([float(md['jf'](h)) for h in HL])
+            eR = onp.array([float(md['jf'](h)) for h in HR])
+            P = onp.array([onp.array(md['jg'](h)) for h in Hs])
         for i, (H, kind, Q) in enumerate(cases):
             t = tol_energy(H, e0[i])
             ctx.count('invariance_checks', 3)
@@ -268,7 +276,7 @@ def check_invariance(ctx, cases, batch):
             tau = P[i] @ F.T
             asym = float(onp.max(onp.abs(tau - tau.T)))
             s = fro(H)
-            if not asym <= 1e-11 * 4 * E_MOD * (s + 1e-6) * (1 + s):
+            if not asym <= 1e-13 * 4 * E_MOD * (1 + s) ** 2:
                 fails.append(dict(kind='conclusion', concrete=True,
                                   what='%s [%s]: Kirchhoff stress dW/dH F^T is not symmetric: max asymmetry %.3g' % (name, kind, asym),
                                   case=dict(model=name, check='kirchhoff', H=H, Q=Q, batch=batch, value=asym)))
@@ -285,9 +293,9 @@ def check_pf_gradient(ctx, cases):
         ph = r.uniform(0, 0.9)
         g = [r.uniform(-1, 1) for _ in range(3)]
         gq = [sum(Q[i][j] * g[i] for i in range(3)) for j in range(3)]
-        e0 = float(md['fpf'](np.array(H), ph, np.array(g)))
-        eL = float(md['fpf'](np.array(rotL(Q, H)), ph, np.array(g)))
-        eR = float(md['fpf'](np.array(rotR(Q, H)), ph, np.array(gq)))
+        e0 = float(md['jfpf'](np.array(H), ph, np.array(g)))
+        eL = float(md['jfpf'](np.array(rotL(Q, H)), ph, np.array(g)))
+        eR = float(md['jfpf'](np.array(rotR(Q, H)), ph, np.array(gq)))
         t = tol_energy(H, e0)
         ctx.count('invariance_checks', 2)
         for lab, ev in (('objectivity', eL), ('isotropy', eR)):
@@ -338,9 +346,13 @@ def l1_run(ctx, cases):
     j2_p = (E_MOD, NU, MU, KAPPA, 1e9)
     exprs, want, labels = [], [], []
 
+    import jax
+    jlss = jax.jit(TensorMath.log_sqrt_symm)
+    jpow = jax.jit(lambda A: TensorMath.pow_symm(A, 0.25))
+
     def lss_of(Fe):
         Cm = Fe.T @ Fe
-        return onp.array(TensorMath.log_sqrt_symm(Cm))
+        return onp.array(jlss(np.array(Cm)))
 
     def fn_const(A, nargs=1):
         return '(fun ' + ' '.join(['_'] * nargs) + ' => ' + cm(A) + ')'
@@ -351,28 +363,28 @@ def l1_run(ctx, cases):
         Fvn = onp.array(Fv)
         L_I = lss_of(F)
         L_v = lss_of(F @ onp.linalg.inv(Fvn))
-        PW = onp.array(TensorMath.pow_symm(np.array(onp.array(H).T @ onp.array(H)), 0.25))
+        PW = onp.array(jpow(np.array(F.T @ F)))
         hm = cm(H)
         items = []
-        items.append(('LinearElastic/linear', 'E_le_linear %s %s' % (ctup(le_p), hm), float(M['LinearElastic/linear']['f'](Hn))))
-        items.append(('LinearElastic/green lagrange', 'E_le_gl %s %s' % (ctup(le_p), hm), float(M['LinearElastic/green lagrange']['f'](Hn))))
-        items.append(('LinearElastic/logarithmic', 'E_le_log %s %s %s' % (fn_const(L_I), ctup(le_p), hm), float(M['LinearElastic/logarithmic']['f'](Hn))))
-        items.append(('Neohookean/coupled', 'E_neo_coupled %s %s' % (ctup(nh_p), hm), float(M['Neohookean/coupled']['f'](Hn))))
-        items.append(('Neohookean/adagio', 'E_neo_adagio %s %s' % (ctup(nh_p), hm), float(M['Neohookean/adagio']['f'](Hn))))
-        items.append(('Gent', 'E_gent %s %s' % (ctup(GENT_PROPS), hm), float(M['Gent']['f'](Hn))))
+        items.append(('LinearElastic/linear', 'E_le_linear %s %s' % (ctup(le_p), hm), float(M['LinearElastic/linear']['jf'](Hn))))
+        items.append(('LinearElastic/green lagrange', 'E_le_gl %s %s' % (ctup(le_p), hm), float(M['LinearElastic/green lagrange']['jf'](Hn))))
+        items.append(('LinearElastic/logarithmic', 'E_le_log %s %s %s' % (fn_const(L_I), ctup(le_p), hm), float(M['LinearElastic/logarithmic']['jf'](Hn))))
+        items.append(('Neohookean/coupled', 'E_neo_coupled %s %s' % (ctup(nh_p), hm), float(M['Neohookean/coupled']['jf'](Hn))))
+        items.append(('Neohookean/adagio', 'E_neo_adagio %s %s' % (ctup(nh_p), hm), float(M['Neohookean/adagio']['jf'](Hn))))
+        items.append(('Gent', 'E_gent %s %s' % (ctup(GENT_PROPS), hm), float(M['Gent']['jf'](Hn))))
         # J2 with a non-virgin plastic distortion / plastic strain, elastic regime (huge yield strength)
         stF = np.hstack((0.0, np.array(Fv).ravel()))
         Ep = [[0.05 * (Fv[i][j] - (1.0 if i == j else 0.0)) for j in range(3)] for i in range(3)]
         stE = np.hstack((0.0, np.array(Ep).ravel()))
         z = C.cf(0.0)
         items.append(('J2Plastic/large deformations', 'E_j2_log %s %s %s %s %s' % (fn_const(L_v), ctup(j2_p), z, cm(Fv), hm),
-                      float(M['J2Plastic/large deformations']['model'].compute_energy_density(Hn, stF, DT))))
+                      float(M['J2Plastic/large deformations']['jm'](Hn, stF, DT))))
         items.append(('J2Plastic/small deformations', 'E_j2_linear %s %s %s %s' % (ctup(j2_p), z, cm(Ep), hm),
-                      float(M['J2Plastic/small deformations']['model'].compute_energy_density(Hn, stE, DT))))
+                      float(M['J2Plastic/small deformations']['jm'](Hn, stE, DT))))
         items.append(('J2Plastic/seth hill', 'E_j2_seth_hill %s %s %s %s %s' % (fn_const(PW, 2), ctup(j2_p), z, cm(Ep), hm),
-                      float(M['J2Plastic/seth hill']['model'].compute_energy_density(Hn, stE, DT))))
+                      float(M['J2Plastic/seth hill']['jm'](Hn, stE, DT))))
         items.append(('HyperViscoelastic', 'E_hv %s %s %s %s %s' % (fn_const(L_v), ctup(HV_PROPS), cm(Fv), C.cf(DT), hm),
-                      float(M['HyperViscoelastic']['model'].compute_energy_density(Hn, np.array(Fv).ravel(), DT))))
+                      float(M['HyperViscoelastic']['jm'](Hn, np.array(Fv).ravel(), DT))))
         # three-branch model: branch 1 carries Fv, branch 2 the identity, branch 3 Fv^T
         FvT = tr(Fv)
         L_2 = L_I
@@ -389,11 +401,11 @@ def l1_run(ctx, cases):
                   % (ctup(MB_PROPS), C.cf(DT), hm, fn_const(L_v), cm(Fv), fn_const(L_2), cm(ident()), fn_const(L_3), cm(FvT),
                      ctup(MB_PROPS), hm, C.cf(DT)))
         items.append(('MultiBranchHyperViscoelastic', mbexpr,
-                      float(M['MultiBranchHyperViscoelastic']['model'].compute_energy_density(Hn, stmb, DT))))
+                      float(M['MultiBranchHyperViscoelastic']['jm'](Hn, stmb, DT))))
         ph, g = 0.37, (0.2, -0.4, 0.1)
         for kin, fnm in (('large deformations', 'E_pf_log %s' % fn_const(L_I)), ('small deformations', 'E_pf_linear')):
             items.append(('PhaseFieldThreshold/' + kin, '%s %s %s %s %s %s %s' % (fnm, ctup(PF_PROPS), C.cf(ph), C.cf(g[0]), C.cf(g[1]), C.cf(g[2]), hm),
-                          float(M['PhaseFieldThreshold/' + kin]['fpf'](Hn, ph, np.array(g)))))
+                          float(M['PhaseFieldThreshold/' + kin]['jfpf'](Hn, ph, np.array(g)))))
         exprs.append('fencs [' + '; '.join(x[1] for x in items) + ']')
         want.append([x[2] for x in items])
         labels.append([x[0] for x in items])
@@ -404,7 +416,7 @@ def l1_run(ctx, cases):
         s = fro(H)
         for gv, wv, lab in zip(got, ws, ls):
             ctx.count('model_vs_impl_comparisons')
-            atol = 1e-9 * 4 * E_MOD * s * s + 1e-13 * E_MOD * s + 1e-300
+            atol = 1e-9 * 4 * E_MOD * s * s + 4e-14 * E_MOD * (1 + s) ** 2    # absolute rounding of det/ln near J = 1
             if not C.close(gv, wv, rtol=1e-9, atol=atol):
                 mism += 1
                 if mism <= 12:
@@ -440,7 +452,7 @@ def correspondence(ctx, model_ok):
     ctx.sample(dict(fn='L2', H=cases[0][0], kind=cases[0][1], Q=cases[0][2]))
     _report(ctx, fails)
     if model_ok:
-        lc = l1_cases(ctx, ctx.n(28, 240))
+        lc = l1_cases(ctx, ctx.n(21, 240))
         l1_run(ctx, lc)
         ctx.count('evaluations', len(lc) * 14)
 
@@ -462,16 +474,49 @@ def search(ctx, reasons):
     return None
 
 
+SPECTRAL = ('LinearElastic/logarithmic', 'J2Plastic/large deformations', 'J2Plastic/seth hill', 'HyperViscoelastic',
+            'MultiBranchHyperViscoelastic', 'PhaseFieldThreshold/large deformations')
+
+
+def stretch_gap(H):
+    """smallest relative gap between two eigenvalues of C = F^T F"""
+    import numpy as onp
+    F = onp.array(H, dtype=float) + onp.eye(3)
+    w = onp.linalg.eigvalsh(F.T @ F)
+    return float(min(w[1] - w[0], w[2] - w[1]) / max(abs(w[2]), 1e-300))
+
+
 def finding_fails(ctx, f):
     w = f['witness']
-    fails = check_rest(ctx, names=[w['model']])
-    return any(x['case']['check'] == 'rest_energy' and abs(x['case']['value'] - w['energy']) <= 1e-9 * abs(w['energy']) for x in fails)
+    if f['id'] == 'F4':
+        # fixed in /repo 60fe5f7: does the rest state of the J2 'seth hill' option still have non-zero energy or stress?
+        return bool(check_rest(ctx, names=[w['model']]))
+    if f['id'] == 'EIGVMAP':
+        # the same state evaluated in a compiled batch of two and as a single compiled call
+        import jax
+        import jax.numpy as np
+        md = models()[w['model']]
+        H = np.array(w['H'])
+        eb = float(jax.jit(jax.vmap(md['f']))(np.array([w['H'], w['H']]))[0])
+        es = float(md['jf'](H))
+        return abs(eb - es) > 1e-10 * abs(es)
+    return False
 
 
 def matches_finding(fl, f):
-    """F4 only: rest-state energy (= 18 kappa) or rest-state stress (NaN: C = H^T H is not differentiable at 0) of J2 'seth hill'"""
+    """EIGVMAP: energy of a model that goes through eigen_sym33_unit, evaluated inside a compiled batch, at a state with two
+    (numerically) equal principal stretches, off by a SMALL relative amount (<= 1e-4); anything else is a fresh violation.
+    F4 (fixed): rest-state energy (= 18 kappa) or NaN rest-state stress of J2 'seth hill'."""
     c = fl.get('case') or {}
     w = f['witness']
+    if f['id'] == 'EIGVMAP':
+        if not (c.get('batch') and c.get('model') in SPECTRAL and c.get('check') in ('objectivity', 'isotropy', 'kirchhoff')):
+            return False
+        if stretch_gap(c['H']) > 1e-9:
+            return False
+        if c['check'] == 'kirchhoff':
+            return c.get('value', 1.0) <= 1e-3 * E_MOD
+        return abs(c['e1'] - c['e0']) <= 1e-4 * abs(c['e0'])
     if c.get('model') != w['model']:
         return False
     if c.get('check') == 'rest_energy':
